@@ -240,6 +240,7 @@ func genLivingCase(prop, tier string, r *rand.Rand) *Case {
 		po := cfg.Options
 		po.Visibility = "show"
 		v.PriorOptions = &po
+		v.SameObject = r.IntN(2) == 0
 	case 1:
 		v.Prior = 1
 		po := genPubOptions(r, []string{"show"})
@@ -304,13 +305,29 @@ func runLivingCase(t *testing.T, c *Case, cr *CaseResult) *CaseResult {
 		v = cfg.Variants[0]
 	}
 	// history
-	if v.Prior >= 0 && v.Prior < len(c.Docs) && v.PriorOptions != nil {
+	var run *pubRun
+	var ok bool
+	if v.Prior == 0 && v.SameObject && v.PriorOptions != nil {
+		// the same *gedcom.Document value is published with "show" first
+		doc, err := decode(c.Docs[0])
+		if err != nil {
+			return cr
+		}
 		sub := &CaseResult{Prop: prop, Probes: map[string]int64{}, Counters: map[string]int64{}}
-		runPublish(t, sub, prop, c.Docs[v.Prior], *v.PriorOptions, 1, simrt.Config{Mode: "default", MapOrder: "identity"}, c.Today, nil)
+		runPublishDoc(t, sub, prop, doc, *v.PriorOptions, 1, simrt.Config{Mode: "default", MapOrder: "identity"}, c.Today, nil)
 		cr.Runs++
 		cr.count("history.prior_publish", 1)
+		cr.count("history.same_document_object", 1)
+		run, ok = runPublishDoc(t, cr, prop, doc, cfg.Options, cfg.Jobs, c.Sim, c.Today, nil)
+	} else {
+		if v.Prior >= 0 && v.Prior < len(c.Docs) && v.PriorOptions != nil {
+			sub := &CaseResult{Prop: prop, Probes: map[string]int64{}, Counters: map[string]int64{}}
+			runPublish(t, sub, prop, c.Docs[v.Prior], *v.PriorOptions, 1, simrt.Config{Mode: "default", MapOrder: "identity"}, c.Today, nil)
+			cr.Runs++
+			cr.count("history.prior_publish", 1)
+		}
+		run, ok = runPublish(t, cr, prop, c.Docs[0], cfg.Options, cfg.Jobs, c.Sim, c.Today, nil)
 	}
-	run, ok := runPublish(t, cr, prop, c.Docs[0], cfg.Options, cfg.Jobs, c.Sim, c.Today, nil)
 	if !ok {
 		return cr
 	}
